@@ -419,6 +419,13 @@ def r9(ctx, rep):
     rep.borrowed(C03.r4, ctx, "C16.R9", "sort columns attached to outer transforms are columns of the outer pipeline", only=r"join-append")
 
 
+def r10(ctx, rep):
+    # a partition (group key) or frame of the outer pipeline that leaks into a joined / appended sub-pipeline is lowered into the pulled-out table,
+    # where the key's column id is not defined
+    import C04
+    rep.borrowed(C04.r5, ctx, "C16.R10", "partition and frame attached to the transforms of a sub-pipeline are columns of that sub-pipeline", only=r"join-append-isolated")
+
+
 def run(ctx, rep):
-    for r in (r1, r2, r3_r4, r5, r6, r7, r8, r9):
+    for r in (r1, r2, r3_r4, r5, r6, r7, r8, r9, r10):
         rep.guard(r, ctx)
